@@ -1,4 +1,5 @@
 import I18n.Lemmas.FmtCheckKinds
+import I18n.Lemmas.FmtCheckOrder
 import I18n.Lemmas.FmtCheckCSig
 import I18n.Lemmas.PyFmtGroups
 import I18n.Props.C12
@@ -255,6 +256,43 @@ theorem pyTolerated_iff (src dst : PyFmt.Result) (hs : MapWf src.map) (omittedOk
     rw [this]
     simp only [hu]
     exact ⟨ho, by simpa using hall⟩
+
+/-- **Python-% `check_args` emits exactly**: the number-mismatch tag if the numbers of unnamed arguments differ; one type tag per
+    unnamed position with different types, in position order; one type tag per common key with different types, in increasing
+    key order; the unknown-argument tags in increasing key order; the missing-argument tags in increasing key order (unless the
+    single one is tolerated). -/
+theorem checkArgsPython_determined (pfx : Extra) (srcLoc : List Char) (src : PyFmt.Result) (dstLoc : List Char) (dst : PyFmt.Result)
+    (omittedOk : Bool) (hs : MapWf src.map) (hd : MapWf dst.map) :
+    ∃ K U M, checkArgsPython pfx srcLoc src dstLoc dst omittedOk = .ok (
+        (if dst.seq.length != src.seq.length then [pyNumberTag pfx srcLoc src dstLoc dst] else []) ++
+        (typeDiffs (pySeq src) (pySeq dst)).map (pyTypeTag pfx srcLoc dstLoc) ++
+        K.flatMap (clashAt (pyClash pfx srcLoc dstLoc) src.map dst.map) ++
+        U.map (pyUnknownTag pfx srcLoc dstLoc) ++ M.map (pyMissingTag pfx srcLoc dstLoc)) ∧
+      Sorted strLt K ∧ (∀ k, k ∈ K ↔ k ∈ keys (pyNamed src) ∧ k ∈ keys (pyNamed dst)) ∧
+      Sorted strLt U ∧ (∀ k, k ∈ U ↔ Unknown (pyNamed src) (pyNamed dst) k) ∧
+      Sorted strLt M ∧ (∀ k, k ∈ M ↔ Missing (pyNamed src) (pyNamed dst) k ∧ pyTolerated src dst omittedOk = false) := by
+  have hks : keys (pyNamed src) = src.map.map (·.1) := keys_viewOf _ _
+  have hkd : keys (pyNamed dst) = dst.map.map (·.1) := keys_viewOf _ _
+  refine ⟨_, _, _, checkArgsPython_eq pfx srcLoc src dstLoc dst omittedOk hs hd, ?_, ?_, ?_, ?_, ?_, ?_⟩
+  · exact sortBy_sorted strLt_strictTotal _ (hd.1.filter _)
+  · intro k
+    rw [mem_sortBy, mem_filter_contains, hks, hkd]
+    exact And.comm
+  · exact sortBy_sorted strLt_strictTotal _ (hd.1.filter _)
+  · intro k
+    rw [mem_sortBy, mem_filter_not_contains]
+    unfold Unknown; rw [hks, hkd]
+  · cases pyTolerated src dst omittedOk with
+    | true => simp [sortBy, Sorted]
+    | false => exact sortBy_sorted strLt_strictTotal _ (hs.1.filter _)
+  · intro k
+    rw [mem_sortBy]
+    unfold Missing; rw [hks, hkd]
+    cases pyTolerated src dst omittedOk with
+    | true => simp
+    | false =>
+      simp only [Bool.false_eq_true, ↓reduceIte, and_true]
+      exact mem_filter_not_contains _ _ k
 
 /-! ## the named signature in terms of the specifications the scanner reads -/
 
